@@ -235,11 +235,21 @@ pub fn run_server_parent(_args: &Args) {
             std::thread::sleep(std::time::Duration::from_millis(150));
         }
         let mut got = Vec::new();
-        let deadline = std::time::Instant::now() + std::time::Duration::from_millis(2500);
+        // the handlers run concurrently: the answer to request 2 may overtake the warning / the publication of the didOpen
+        // handler, so after the answer the output is drained until it has been quiet for a while (and for 8 s at most)
+        let deadline = std::time::Instant::now() + std::time::Duration::from_millis(8000);
+        let mut answered_at: Option<std::time::Instant> = None;
         while std::time::Instant::now() < deadline {
-            match rx.recv_timeout(std::time::Duration::from_millis(200)) { Ok(b) => got.extend_from_slice(&b), Err(_) => {} }
+            match rx.recv_timeout(std::time::Duration::from_millis(200)) {
+                Ok(b) => { got.extend_from_slice(&b); if answered_at.is_some() { answered_at = Some(std::time::Instant::now()); } }
+                Err(_) => {}
+            }
             let t = String::from_utf8_lossy(&got);
-            if t.contains("\"id\":2") { break; }
+            if answered_at.is_none() && t.contains("\"id\":2") { answered_at = Some(std::time::Instant::now()); }
+            if let Some(a) = answered_at {
+                let settled = t.contains("Cache not available") || t.contains("window/showMessage") || t.contains("publishDiagnostics");
+                if a.elapsed() >= std::time::Duration::from_millis(if settled { 300 } else { 1500 }) { break; }
+            }
         }
         let text = String::from_utf8_lossy(&got).to_string();
         let alive = matches!(child.try_wait(), Ok(None));
@@ -253,6 +263,6 @@ pub fn run_server_parent(_args: &Args) {
         if let Some(mut e) = child.stderr.take() { let _ = e.read_to_string(&mut err); }
         emit(v, json!({"initialized": text.contains("\"id\":1") && text.contains("capabilities"), "answered_action": text.contains("\"id\":2"),
                        "warned": text.contains("Cache not available") || text.contains("window/showMessage"),
-                       "published": text.contains("publishDiagnostics"), "alive_after_requests": alive, "write_ok": write_ok, "exit": status, "stderr": err.chars().take(300).collect::<String>()}));
+                       "published": text.contains("publishDiagnostics"), "update_msg": text.contains("Update available"), "alive_after_requests": alive, "write_ok": write_ok, "exit": status, "stderr": err.chars().take(300).collect::<String>()}));
     }
 }
